@@ -681,6 +681,7 @@ def gen_world_case(rng: random.Random, n_ev: int):
     face_dels: list[int] = []             # face IDs released by Side.__del__ (in whichever map)
     tev: list[str] = []                   # the same history as bundled events on top-level objects (SM/IdNest.v)
     nest_ok = True
+    nest_flag: list[str] = []
     for m, v in enumerate(maps):          # the constructor's worldspawn takes an entity ID in every map
         ev['KEnt'].append(f'WCreate {m}%nat (-1)')
         tev.append(f'TCreateSpawn {m}%nat')            # top-level objects 0..2 of the nested model
@@ -839,19 +840,43 @@ def gen_world_case(rng: random.Random, n_ev: int):
         s, dest = rng.sample(range(3), 2)
         keep_vis = rng.random() < 0.4       # visgroup=True: the visgroup trees of the instance map are copied as well
         nb0, ne0, nv0 = len(maps[dest].brushes), len(maps[dest].entities), len(maps[dest].vis_tree)
-        srcs = list(maps[s].brushes) + list(maps[s].entities)
         vsrcs = list(maps[s].vis_tree)
         inst = instancing.Instance('inst', '', Vec(16, 0, 0), Matrix())
         instancing.collapse_one(maps[dest], inst, instancing.InstanceFile(maps[s]), visgroup=keep_vis)
-        news = maps[dest].brushes[nb0:] + maps[dest].entities[ne0:]
+        new_b, new_e = maps[dest].brushes[nb0:], maps[dest].entities[ne0:]
+        news = new_b + new_e
         for vo, vc in zip(vsrcs, maps[dest].vis_tree[nv0:]):
             gt = next(t for t in gtops if t['obj'] is vo)
             gtops.append({'kind': 'vis', 'obj': vc, 'tree': track_vis_copy(gt['tree'], vc, dest, -1), 'home': dest, 'inmap': True})
+        # which source a new object was copied from is read from the tables collapse_one fills in (old ID -> new ID)
+        back_b = {new: old for old, new in inst.brush_ids.items()}
+        back_e = {new: old for old, new in inst.ent_ids.items()}
+        srcs = [next((o for o in maps[s].brushes if o.id == back_b.get(c.id)), None) for c in new_b] + \
+               [next((o for o in maps[s].entities if o.id == back_e.get(c.id)), None) for c in new_e]
         for so, c in zip(srcs, news):
-            t = next(t for t in tops if t['obj'] is so)
+            t = next((t for t in tops if t['obj'] is so), None)
+            if t is None:
+                nest_flag.append('collapse_one produced an object whose source is not a tracked top-level object')
+                continue
             tops.append(track_top_copy(t, c, dest, -1, True))
         desc.append(('collapse', s, dest, len(news), len(srcs), keep_vis, len(maps[dest].vis_tree) - nv0))
-        tev.append(f'TCollapse {s}%nat {dest}%nat')
+        tev.append(f'TCollapse {s}%nat {dest}%nat {"true" if keep_vis else "false"}')
+
+    def hide_event():
+        live = [t for t in tops if t['obj'] is not None]
+        if not live:
+            return
+        t = rng.choice(live)
+        b = rng.random() < 0.6
+        if b and rng.random() < 0.5:
+            t['obj'].hidden = True
+        elif b:
+            t['obj'].vis_shown = False
+        else:
+            t['obj'].hidden = False
+            t['obj'].vis_shown = True
+        desc.append(('hide', tops.index(t), b))
+        tev.append(f'THide {tops.index(t) + 3}%nat {"true" if b else "false"}')
 
     for _ in range(n_ev):
         if rng.random() < 0.25:
@@ -859,6 +884,9 @@ def gen_world_case(rng: random.Random, n_ev: int):
             continue
         if rng.random() < 0.10:
             collapse_event()
+            continue
+        if rng.random() < 0.07:
+            hide_event()
             continue
         r = rng.random()
         live = [t for t in tops if t['obj'] is not None]
@@ -974,6 +1002,7 @@ def gen_world_case(rng: random.Random, n_ev: int):
     for v in maps:
         del v.face_id.discard
     ev['T'] = tev if nest_ok else None
+    exp['T_flag'] = nest_flag
     # the lists of every map as the model must have them: indexes of the top-level objects in maps[m].brushes, then -1,
     # those in maps[m].entities, then -2
     order: list[int] = []
